@@ -128,7 +128,7 @@ def run_shard(ctx, shard):
         names = {c for L in chain for _, c in L["e"]}
         if names & {"0", "r", "r+v1", "max", "1"}:
             return "special-ids"
-        if wk.HID in names:
+        if any(wk.is_hidden(n) for n in names):
             return "hidden-entry"
         return "plain"
 
